@@ -131,6 +131,44 @@ def run():
         h = min(dis_model, key=len)
         chk.broke('correspondence: model (with the translated configuration) and SortedPipeline differ on %d histories, e.g. %r' % (len(dis_model), h),
                   {'kind': 'correspondence', 'history': h})
+    # State that survives between calls, pipeline objects or histories (a function-local static, a cache keyed on
+    # the first call of the process) is invisible when 40 000 histories share one harness process: the same short
+    # histories are also run in FRESH processes, one per first call sequence, and must give the lists the
+    # (history-independent) model gives.  A disagreement there that the one-process run does not show is
+    # reported with the ordered list of histories the process had seen.
+    conts = [''.join(t) for k in (1, 2, 3) for t in itertools.product('AFMSP', repeat=k)] + ['SMmM', 'SPMRS', 'ASMFMs', 'MSsSM', 'PSMFA']
+    firsts = [''.join(t) for k in (1, 2) for t in itertools.product('AFMSP', repeat=k)]
+    fresh_runs, fresh_bad = 0, None
+    _, conts_m, _ = vlib.run_lines(model, conts)
+    for first in firsts:
+        batch = [first] + conts
+        rcf, out_f, err_f = vlib.run_lines(impl, batch)
+        fresh_runs += 1
+        if rcf != 0 or len(out_f) != len(batch):
+            fresh_bad = fresh_bad or (first, batch[min(len(out_f), len(batch) - 1)], 'crash', err_f[-300:])
+            continue
+        _, vf, _ = vlib.run_lines(model, out_f, ['oracle'])
+        for h, a, m_, v in zip(batch[1:], out_f[1:], conts_m, vf[1:]):
+            if '0' in v or a != m_:
+                if fresh_bad is None or len(h) < len(fresh_bad[1]):
+                    fresh_bad = (first, h, 'order' if '0' in v else 'differs', a)
+    if fresh_bad and not chk.failing:
+        first, h, what, detail = fresh_bad
+        _, o2, _ = vlib.run_lines(impl, [first, h])
+        _, v2, _ = vlib.run_lines(model, o2, ['oracle']) if len(o2) == 2 else (0, [], '')
+        _, o1, _ = vlib.run_lines(impl, [h])
+        _, v1, _ = vlib.run_lines(model, o1, ['oracle']) if o1 else (0, [], '')
+        alone_ok = bool(v1) and '0' not in v1[0]
+        if what == 'crash' or (len(v2) == 2 and '0' in v2[1]):
+            chk.fail('in a fresh process whose first pipeline saw the calls %r, the handler list of a NEW pipeline violates class order / '
+                     'stability / single formatter after history %r%s' % (first, h, ' (the same history in a process of its own is fine)' if alone_ok else ''),
+                     {'process_histories_in_order': [first, h], 'history': h, 'implementation_lists_after_each_call': o2[1] if len(o2) == 2 else detail,
+                      'same_history_alone_ok': alone_ok, 'kind': 'order-process-state'}, kind='order')
+        else:
+            chk.broke('correspondence: in a fresh process started with %r the lists for history %r differ from the model (%s)' % (first, h, what),
+                      {'kind': 'correspondence-fresh-process', 'process_histories_in_order': [first, h], 'history': h})
+    chk.cov['fresh_process_runs'] = fresh_runs
+    chk.cov['fresh_process_histories_each'] = len(conts) + 1
     distinct = len(set(hs))
     chk.cov.update({'evaluations': len(hs), 'distinct_nontrivial': len({h for h in hs if len(set(h) & set('AFMRSPBGTQ')) >= 2}),
                     'rule': 'random histories over the 12 calls (three insertion/clear mixes, all 120 class orders as prefixes) plus every '
